@@ -43,6 +43,10 @@ PARAMS = {
     "Wave": (1, lambda ex, p, dt: ex.stepper.Wave(1, 2.0, 11, dt, speed_of_sound=p["speed_of_sound"]), {"speed_of_sound": 1.3}),
     "Burgers": (1, lambda ex, p, dt: ex.stepper.Burgers(1, 3.0, 12, dt, diffusivity=p["diffusivity"], convection_scale=p["convection_scale"], order=ORDER[0]),
                 {"diffusivity": 0.08, "convection_scale": 0.9}),
+    # stiff: the fastest modes have exp(L dt) = 0 exactly in binary64 (nu k_max^2 dt > 745) — the step is finite and
+    # so is every derivative (d exp(L dt) = L exp(L dt) d(dt) = 0 there)
+    "Burgers@stiff": (1, lambda ex, p, dt: ex.stepper.Burgers(1, 1.0, 64, dt, diffusivity=p["diffusivity"], convection_scale=p["convection_scale"], order=ORDER[0]),
+                      {"diffusivity": 0.5, "convection_scale": 0.9}),
     "KortewegDeVries": (1, lambda ex, p, dt: ex.stepper.KortewegDeVries(1, 8.0, 12, dt, dispersivity=p["dispersivity"], convection_scale=p["convection_scale"], order=ORDER[0]),
                         {"dispersivity": 0.4, "convection_scale": -2.0}),
     "KuramotoSivashinsky": (1, lambda ex, p, dt: ex.stepper.KuramotoSivashinsky(1, 20.0, 12, dt, gradient_norm_scale=p["gradient_norm_scale"], second_order_scale=p["second_order_scale"], order=ORDER[0]),
@@ -200,7 +204,7 @@ def oracle(ctx, deep):
     if not deep:
         names = [n for i, n in enumerate(names) if (i + ctx.seed) % 2 == 0] + ["Wave", "NavierStokesVorticity", "GeneralLinearStepper",
                                                                                  "NormalizedLinearStepper", "GeneralNonlinearStepper@0"]
-        for nm, od in (("Burgers", 1), ("KuramotoSivashinsky", 1), ("KortewegDeVries", 4)):   # fixed: every order family appears
+        for nm, od in (("Burgers", 1), ("KuramotoSivashinsky", 1), ("KortewegDeVries", 4), ("Burgers@stiff", 3), ("Burgers@stiff", 2 + 2 * (ctx.seed % 2))):   # fixed: every order family appears
             r = probe_param_derivatives(nm, ctx.seed, od)
             ctx.count(("oracle_derivatives", nm, od))
             if not r["ok"]:
